@@ -4,6 +4,7 @@ import Percival.Proofs.EndianRT
 import Percival.Proofs.SockLines
 import Percival.Proofs.JsonSpec
 import Percival.Proofs.ParsersStep
+import Percival.Proofs.Inet6
 /-! # C17 — encoders and decoders are mutually inverse and match their standards
 
 Models: `Model.B64`, `Model.Hex`, `Model.Endian`, `Model.SockAddr`, `Model.Json` (bounds-checked, following
@@ -457,7 +458,8 @@ example : stepOp (.sres "[1.2.3.4]:80".toUTF8.toList) =
    three hypotheses on `Inet.print6 a`.  What is missing: the IPv6 half of `InetLaws` for `Spec.Inet`, i.e.
    `parse6 (print6 a) = some a`, `0x3a ∈ print6 a`, no NUL in `print6 a`, for every 16-byte `a` (`print6` chooses the
    longest zero run with a loop and has the dotted-quad forms; not proved).  The three hypotheses are decidable for a
-   concrete address (see the example). -/
+   concrete address (see the example).
+   [Later: proved — `inet6_pton_ntop` and the full statement `exec_sres_v6` at the end of this file.] -/
 /-- `sres` on a bracketed IPv6 literal `[t]:p`: L1 = the `sockaddr_in6` with the address `t` denotes and port `p`;
     L2: its text is `[inet_ntop(a)]:p`, which resolves back to the same address if `inet_pton` undoes `inet_ntop` on
     this address. -/
@@ -486,5 +488,57 @@ example : stepOp (.sres "[0:0:0:0:0:0:0:1]:80".toUTF8.toList) =
     harness prints the C compiler's; a difference is an L2 divergence). -/
 theorem exec_abi : stepOp .abi = .abi 1 2 10 1 108 110 16 28 := rfl
 example : stepOp .abi ≠ .ooc := by decide
+
+/-- `Spec.Inet` satisfies the IPv6 half of `InetLaws`: `inet_pton(AF_INET6, inet_ntop(AF_INET6, a)) = a` for EVERY
+    16-byte address (all shapes `print6` produces: eight groups; the first longest run of ≥ 2 zero groups written `::`
+    at the start, in the middle or at the end; `::a.b.c.d` and `::ffff:a.b.c.d` with a dotted quad), and the text
+    contains a `':'` and no NUL. -/
+theorem inet6_pton_ntop (a : List UInt8) (h : a.length = 16) :
+    ntop6 a = some (Inet.print6 a) ∧ Inet.parse6 (Inet.print6 a) = some a ∧
+      0x3a ∈ Inet.print6 a ∧ (∀ c ∈ Inet.print6 a, c ≠ 0) :=
+  ⟨Proofs.ParsersStep.ntop6_eq a h, Proofs.Inet6.parse6_print6 a h,
+   (Proofs.Inet6.print6_chars a h).1, (Proofs.Inet6.print6_chars a h).2⟩
+/-- the shapes: leading `::`, trailing `::`, a run in the middle, no run, a single zero group (not compressed), two
+    runs of equal length (the first one is compressed), all zeros, IPv4-compatible and IPv4-mapped (dotted quad) -/
+example :
+    Inet.print6 [0, 0, 0, 0, 0, 0, 0, 0, 0, 0, 0, 0, 0, 0, 0, 1] = "::1".toUTF8.toList ∧
+    Inet.print6 [0x20, 0x01, 0x0d, 0xb8, 0, 0, 0, 0, 0, 0, 0, 0, 0, 0, 0, 0] = "2001:db8::".toUTF8.toList ∧
+    Inet.print6 [0x20, 0x01, 0x0d, 0xb8, 0, 0, 0, 0, 0, 0, 0, 0, 0, 0, 0xab, 0x0c] = "2001:db8::ab0c".toUTF8.toList ∧
+    Inet.print6 [0, 1, 0, 2, 0, 3, 0, 4, 0, 5, 0, 6, 0, 7, 0, 8] = "1:2:3:4:5:6:7:8".toUTF8.toList ∧
+    Inet.print6 [0, 1, 0, 0, 0, 3, 0, 4, 0, 5, 0, 6, 0, 7, 0, 8] = "1:0:3:4:5:6:7:8".toUTF8.toList ∧
+    Inet.print6 [0, 1, 0, 0, 0, 0, 0, 4, 0, 5, 0, 0, 0, 0, 0, 8] = "1::4:5:0:0:8".toUTF8.toList ∧
+    Inet.print6 [0, 0, 0, 0, 0, 0, 0, 0, 0, 0, 0, 0, 0, 0, 0, 0] = "::".toUTF8.toList ∧
+    Inet.print6 [0, 0, 0, 0, 0, 0, 0, 0, 0, 0, 0, 0, 1, 2, 3, 4] = "::1.2.3.4".toUTF8.toList ∧
+    Inet.print6 [0, 0, 0, 0, 0, 0, 0, 0, 0, 0, 0xff, 0xff, 1, 2, 3, 4] = "::ffff:1.2.3.4".toUTF8.toList ∧
+    Inet.parse6 "1::4:5:0:0:8".toUTF8.toList = some [0, 1, 0, 0, 0, 0, 0, 4, 0, 5, 0, 0, 0, 0, 0, 8] ∧
+    Inet.parse6 "::ffff:1.2.3.4".toUTF8.toList = some [0, 0, 0, 0, 0, 0, 0, 0, 0, 0, 0xff, 0xff, 1, 2, 3, 4] := by
+  decide +kernel
+
+/-- `Spec.Inet` with the `ntop4` / `ntop6` of the executable satisfies `InetLaws`, the hypothesis of
+    `sock_resolve_prettyprint`: that theorem holds for the functions `pmodel parsers` runs. -/
+theorem inet_laws : InetLaws Inet.parse4 Inet.parse6 ntop4 ntop6 :=
+  ⟨fun a h => ⟨_, (inet4_pton_ntop a h).1, (inet4_pton_ntop a h).2.1, (inet4_pton_ntop a h).2.2.1, (inet4_pton_ntop a h).2.2.2⟩,
+   fun a h => ⟨_, (inet6_pton_ntop a h).1, (inet6_pton_ntop a h).2.1, (inet6_pton_ntop a h).2.2.1, (inet6_pton_ntop a h).2.2.2⟩⟩
+example : ∃ s, prettyprint ntop4 ntop6 (mkIn6 [0x20, 0x01, 0x0d, 0xb8, 0, 0, 0, 0, 0, 0, 0, 0, 0, 0, 0, 1] 443) = .ok (some s) ∧
+    resolve Inet.parse4 Inet.parse6 (cstr s) = .ok (.addr (mkIn6 [0x20, 0x01, 0x0d, 0xb8, 0, 0, 0, 0, 0, 0, 0, 0, 0, 0, 0, 1] 443)) :=
+  (sock_resolve_prettyprint _ _ _ _ inet_laws 443 (by decide) (by decide)).2.1 _ rfl
+
+/-- `sres` on a bracketed IPv6 literal `[t]:p` (`t` any text with a `':'` that `Spec.Inet.parse6` accepts, port
+    1..65535): L1 = the `sockaddr_in6` with the address `t` denotes and port `p`; L2: its text is `[inet_ntop(a)]:p`,
+    and that resolves back to the same address (`m=1`) — for EVERY IPv6 address, by `inet6_pton_ntop`
+    (`exec_sres_v6_partial` without its three hypotheses on `Inet.print6 a`). -/
+theorem exec_sres_v6 (t a : List UInt8) (p : Nat) (h0 : ∀ c ∈ t, c ≠ 0) (hc : 0x3a ∈ t)
+    (ht : Inet.parse6 t = some a) (h1 : 1 ≤ p) (h2 : p ≤ 65535) :
+    stepOp (.sres ([0x5b] ++ t ++ [0x5d, 0x3a] ++ decimal p)) =
+      .sres (.addr (mkIn6 a p) ([0x5b] ++ Inet.print6 a ++ [0x5d, 0x3a] ++ decimal p) true) := by
+  obtain ⟨_, l2, l3, l4⟩ := inet6_pton_ntop a (Proofs.ParsersStep.parse6_length t a ht)
+  exact exec_sres_v6_partial t a p h0 hc ht h1 h2 l4 l3 l2
+/-- an upper-case, uncompressed spelling of an IPv4-mapped address comes back as `::ffff:1.2.3.4`; a run in the middle -/
+example :
+    stepOp (.sres "[0:0:0:0:0:FFFF:102:304]:80".toUTF8.toList) =
+      .sres (.addr (mkIn6 [0, 0, 0, 0, 0, 0, 0, 0, 0, 0, 0xff, 0xff, 1, 2, 3, 4] 80) "[::ffff:1.2.3.4]:80".toUTF8.toList true) ∧
+    stepOp (.sres "[2001:db8:0:0:0:0:0:1]:65535".toUTF8.toList) =
+      .sres (.addr (mkIn6 [0x20, 0x01, 0x0d, 0xb8, 0, 0, 0, 0, 0, 0, 0, 0, 0, 0, 0, 1] 65535)
+        "[2001:db8::1]:65535".toUTF8.toList true) := by decide +kernel
 
 end Percival.C17
